@@ -92,6 +92,11 @@ type PathState struct {
 	jsonTab  map[string]*wireEntry
 	ldb      map[string]map[string]Value
 
+	bnMsgs  [][]*Term // bn256 model: hashed messages (one G1 basis element each)
+	bnTok   map[string]int
+	bnTokV  []GVal
+	bnFresh int
+
 	usedMapOrder bool
 	nondet       bool // the path uses an over-approximating stub: no sample prediction
 
